@@ -247,6 +247,53 @@ theorem accepted_fixed_point_full_refuted :
 example : printB (joined [point 3, between 3, point 3]) = [106, 111, 105, 110, 40, 52, 44, 51, 94, 52, 44, 52, 41] ∧
     printB (joined [point 3, point 3]) = [106, 111, 105, 110, 40, 52, 44, 52, 41] ∧ printB (point 3) = [52] := by decide +kernel
 
+/-! ### OPEN (audit S7, item 1(b)): parser results are canonical — NOT proved
+
+FULL STATEMENT (not proved, believed true with the guards below):
+
+    theorem parse_result_canon (s : Pars.Bytes) (l : Loc) (r : Pars.Bytes)
+        (hp : parseLocationK3 s = .ok (l, false, r))      -- accepted, parse-level K3 guard false (Spec/ParseK3.lean)
+        (hc : coordsOkText s)                              -- every number of the text in [1, 2^62] (no `-5`, no `0`)
+        (hadj : no `join(` of the text has two neighbouring `complement(` parts after flattening)
+        : canonP l = true
+
+What exists: the guard itself (`parseLocationK3`, evaluated on both sides by the op `k3.parse`; the harness classifies
+failures of the string oracle with it), `join_canon_partial` (the `Join` step: needs `noAdjCompl` besides `joinK3 = false`,
+which is why `hadj` is in the statement), `complement_canon`, and the leaf cases (a contiguous result is canonical iff its
+coordinates are in range, by definition of `canonP`).  What is missing: (1) the simulation `parseLocationK3 s` = `parseLocation s`
+with a flag (a lock-step induction over the five mutual fuelled parsers of `LocParse`), (2) the invariant itself by the same
+induction — `multiple` yields a list of canonical parts, `orderOf` needs `Order` of canonical parts canonical (`flattenLocations`;
+no theorem yet), (3) the leaf parsers' coordinate bounds from the text.  No `…_partial` theorem is stated here: every part that
+closes today would not use its parser hypothesis (the objection of S7 to `accepted_fixed_point_partial`).  Note that `canonP`
+does NOT exclude empty or inverted spans (`canonP (ranged 4 4 false false) = true`): `join(5,5..4)` is accepted with the K3
+guard false, is canonical, and still loses a residue (`join_den_nonwf_refuted`, K6A). -/
+
+/-- FULL STATEMENT WITHOUT `wfList` (false, known finding K6A): "the reductions of `Join` keep the denoted
+residues for ALL argument lists as long as the K2 rule does not fire".  `join_den_partial` needs every range
+of the arguments non-empty (`wfList`), and the parser does NOT guarantee that: the text `join(5,5..4)`
+(= `printB (joined [point 4, ranged 4 4 false false])`) is ACCEPTED — `5..4` is read as the empty range
+`Ranged{4, 4}` —, `Join` absorbs the point in front of it into that range (the rule `Point{p}` then
+`Ranged{p, …}`), and the result `5..4` denotes nothing: residue 5 is lost although the K2 guard is false.
+The conjuncts record the witness: what the parser returns, that the list is not `wfList`, that K2 does not
+fire, and the two denotations. -/
+theorem join_den_nonwf_refuted :
+    ¬ (∀ xs : List Loc, joinAbs xs = false → den (join xs) ≼ denList xs) ∧
+    parseLocation (printB (joined [point 4, ranged 4 4 false false])) = .ok (ranged 4 4 false false, []) ∧
+    wfList [point 4, ranged 4 4 false false] = false ∧
+    joinAbs [point 4, ranged 4 4 false false] = false ∧
+    denList [point 4, ranged 4 4 false false] = [(4, false)] ∧ den (ranged 4 4 false false) = [] := by
+  have hj : join [point 4, ranged 4 4 false false] = ranged 4 4 false false := Loc.beq_eq _ _ (by decide)
+  refine ⟨?_, ?_, by decide, by decide, by decide, by decide⟩
+  · intro h
+    have := (h [point 4, ranged 4 4 false false] (by decide)).2 (4, false) (by decide)
+    revert this
+    decide
+  · rw [written_join_read_back (point 4) [ranged 4 4 false false] (by decide), hj]
+
+/-- the witness text of `join_den_nonwf_refuted` is the string `join(5,5..4)` -/
+example : printB (joined [point 4, ranged 4 4 false false]) =
+    [106, 111, 105, 110, 40, 53, 44, 53, 46, 46, 52, 41] := by decide +kernel
+
 /-- FULL STATEMENT (false, known finding K3): "`Join` of canonical arguments is canonical".  The
 arguments `4, 3^4, 4` (each canonical) reduce to `join(4,4)`, which is not a fixed point of `Join`. -/
 theorem join_canon_full_refuted :
